@@ -1,4 +1,5 @@
 import TvCore.Props.C02
+import TvCore.Props.C02Close
 #print axioms TV.C02.drainBuf_inv
 #print axioms TV.C02.arrive_inv
 #print axioms TV.C02.pop_inv
@@ -11,3 +12,6 @@ import TvCore.Props.C02
 #print axioms TV.C02.complete_fixed
 #print axioms TV.C02.witness_fin_stuck
 #print axioms TV.C02.delivery_fixed
+#print axioms TV.C02.dropRead_cases
+#print axioms TV.C02.dropRead_graceful
+#print axioms TV.C02.fin_at_head_is_graceful
